@@ -14,6 +14,7 @@ import (
 	"github.com/semihalev/sdns/config"
 	"github.com/semihalev/sdns/middleware"
 	"github.com/semihalev/sdns/middleware/resolver"
+	"github.com/semihalev/sdns/server"
 	"github.com/semihalev/sdns/zzverif/authsim"
 	"github.com/semihalev/sdns/zzverif/replycontract"
 	zm "github.com/semihalev/sdns/zzverif/zonemodel"
@@ -38,6 +39,21 @@ type StackCfg struct {
 	// upstream exchange timeout / per-query timeout (ms)
 	TimeoutMs      int `json:"timeout_ms"`
 	QueryTimeoutMs int `json:"querytimeout_ms"`
+	// Pool: `fallbackservers` is configured — one scripted open recursive
+	// server (pool.go) the failover middleware re-sends SERVFAIL'd queries to
+	Pool bool `json:"fallbackservers,omitempty"`
+	// PoolDim: which budget the stack was built to cross (pool stacks)
+	PoolDim string `json:"pool_dimension,omitempty"`
+	// PoolPlace: how the outbound budget of enforce+pool/outbound was chosen:
+	// "handover" (exactly the packets the failing primary resolution was seen
+	// to spend before the pool was asked), "handover+1", "small" (a draw)
+	PoolPlace string `json:"pool_outbound_placement,omitempty"`
+	// Wire: client queries enter as raw packets on a transport job
+	// (Server.ServeRaw: the wire-born request path of the UDP/TCP engines)
+	// instead of as decoded messages (Server.ServeMsg)
+	Wire bool `json:"wire_born,omitempty"`
+
+	poolAddr string
 }
 
 func (c StackCfg) outboundBudget() uint32 {
@@ -82,6 +98,18 @@ type QueryObs struct {
 	QuestionAsked int `json:"question_asked_upstream"`
 	// Restart: restarts / re-entries recognised in the packet log (restart kinds)
 	Restart *RestartObs `json:"restart,omitempty"`
+	// PoolPackets: packets of this window received by the fallback pool (they
+	// are part of Packets: the failover middleware debits them as outbound
+	// attempts of the tree). PoolOwnQuestion: those that ask the client's own
+	// question. Handover: packets logged before the first of these.
+	PoolPackets     int      `json:"fallback_pool_packets,omitempty"`
+	PoolOwnQuestion int      `json:"fallback_pool_asked_client_question,omitempty"`
+	PoolAnswered    int      `json:"fallback_pool_answered_client_question,omitempty"`
+	Handover        int      `json:"packets_before_fallback_pool_was_asked,omitempty"`
+	PoolAsked       []string `json:"fallback_pool_questions,omitempty"`
+	// WireBorn: the query entered through Server.ServeRaw and took the strict
+	// (undecoded) branch
+	WireBorn bool `json:"wire_born,omitempty"`
 
 	reply     *dns.Msg
 	edeCodes  []uint16
@@ -145,12 +173,26 @@ func (run *runner) tweak(c StackCfg) func(*config.Config) {
 		cfg.QnameMinLevel = c.QMin
 		cfg.Timeout.Duration = time.Duration(c.TimeoutMs) * time.Millisecond
 		cfg.QueryTimeout.Duration = time.Duration(c.QueryTimeoutMs) * time.Millisecond
+		if c.Pool && c.poolAddr != "" {
+			cfg.FallbackServers = []string{c.poolAddr}
+			// An entry the cache learns from the pool is prefetch-due at
+			// once (its lifetime is capped by the failed primary resolution)
+			// and every hit on it — also a hit by an internal sub-query of a
+			// later tree — queues a refresh: a request tree of its own with
+			// a budget of its own, whose packets cannot be told from the
+			// client's tree in the packet log. Pool stacks run without
+			// prefetch, so that a window holds one request tree.
+			cfg.Prefetch = 0
+		}
 	}
 }
 
 // startStack builds the pipeline and waits until the start-up request trees
 // (root priming, then the trust-anchor refresh) are over. nil = inconclusive.
 func (run *runner) startStack(w *world, c StackCfg) *stackRun {
+	if c.Pool {
+		c.poolAddr = w.poolServer().Addr()
+	}
 	taBefore := resolver.VerifC12TARefreshRuns()
 	rs, err := w.u.NewResolverStack(run.tweak(c))
 	if err != nil {
@@ -312,6 +354,12 @@ func (s *stackRun) ask(client string, q QuerySpec) *QueryObs {
 	qm := q.msg(uint16(1000 + s.seq))
 	qraw, _ := qm.Pack()
 	t := authsim.NewRecTransport("tcp", client)
+	var job *server.VerifStrictJob
+	if s.cfg.Wire {
+		if ta, err := net.ResolveTCPAddr("tcp4", client); err == nil {
+			job = server.VerifNewStrictJob(ta)
+		}
+	}
 	done := make(chan struct{})
 	start := time.Now()
 	go func() {
@@ -321,6 +369,12 @@ func (s *stackRun) ask(client string, q QuerySpec) *QueryObs {
 				r.Violation("panic/ServeMsg", fmt.Sprintf("panic while serving %s: %v", q, p), s.caseFor(obs))
 			}
 		}()
+		if job != nil {
+			if !s.rs.Server.ServeRaw(job, append([]byte(nil), qraw...), time.Now()) {
+				r.Inconclusive(fmt.Sprintf("ServeRaw declined the packed query %s", q))
+			}
+			return
+		}
 		s.rs.Server.ServeMsg(context.Background(), t, qm.Copy())
 	}()
 	qt := time.Duration(s.cfg.QueryTimeoutMs) * time.Millisecond
@@ -359,7 +413,8 @@ func (s *stackRun) ask(client string, q QuerySpec) *QueryObs {
 		if isMarker(&p) {
 			continue
 		}
-		if s.w.owns(p.QNameL) {
+		pool := p.Server == poolServerName
+		if s.w.owns(p.QNameL) && !pool {
 			owned = append(owned, p)
 		}
 		if !s.w.owns(p.QNameL) {
@@ -373,7 +428,22 @@ func (s *stackRun) ask(client string, q QuerySpec) *QueryObs {
 			continue
 		}
 		obs.Packets++
-		if p.QType == q.Type && p.QNameL == strings.ToLower(q.Name) {
+		ownQ := p.QType == q.Type && p.QNameL == strings.ToLower(q.Name)
+		if pool {
+			obs.PoolPackets++
+			if ownQ {
+				if obs.PoolOwnQuestion == 0 {
+					obs.Handover = obs.Packets - 1
+				}
+				obs.PoolOwnQuestion++
+				if strings.Contains(p.Outcome, "answered") {
+					obs.PoolAnswered++
+				}
+			}
+			if len(obs.PoolAsked) < 40 {
+				obs.PoolAsked = append(obs.PoolAsked, p.QNameL+" "+dns.TypeToString[p.QType])
+			}
+		} else if ownQ {
 			obs.QuestionAsked++
 		}
 		if p.Transport == "tcp" {
@@ -395,6 +465,19 @@ func (s *stackRun) ask(client string, q QuerySpec) *QueryObs {
 		obs.Restart.PreReply = obs.Packets - obs.AfterReply
 	}
 
+	if job != nil {
+		// the job recorded the raw writes; present them like the recording
+		// transport does
+		obs.WireBorn = job.VerifUsedStrict()
+		for _, b := range job.Writes {
+			t.Raws = append(t.Raws, b)
+			m := new(dns.Msg)
+			if m.Unpack(b) != nil {
+				m = nil
+			}
+			t.Msgs = append(t.Msgs, m)
+		}
+	}
 	replies := t.Replies()
 	obs.Replies = len(replies)
 	if len(replies) > 0 && replies[0] != nil {
@@ -432,8 +515,8 @@ func (s *stackRun) ask(client string, q QuerySpec) *QueryObs {
 		}
 	}
 	if debug {
-		fmt.Fprintf(os.Stderr, "  T%d %-14s %-8s %s -> %s ede=%v pkts=%d(tcp %d, after %d) debits=%d trees=%d exh=%v %dms q=%v budget=%d restart=%s\n",
-			s.w.spec.Index, s.cfg.Label, client, q, obs.outcome(), obs.EDE, obs.Packets, obs.TCPPackets, obs.AfterReply, obs.Debits, obs.Trees, obs.Exhausted, obs.ElapsedMs, obs.Quiesced, s.cfg.outboundBudget(), obs.Restart.String())
+		fmt.Fprintf(os.Stderr, "  T%d %-14s %-8s %s -> %s ede=%v pkts=%d(tcp %d, after %d) debits=%d trees=%d exh=%v %dms q=%v budget=%d restart=%s pool=%d/own %d@%d\n",
+			s.w.spec.Index, s.cfg.Label, client, q, obs.outcome(), obs.EDE, obs.Packets, obs.TCPPackets, obs.AfterReply, obs.Debits, obs.Trees, obs.Exhausted, obs.ElapsedMs, obs.Quiesced, s.cfg.outboundBudget(), obs.Restart.String(), obs.PoolPackets, obs.PoolOwnQuestion, obs.Handover)
 		if debugPackets {
 			for _, l := range obs.Upstream {
 				fmt.Fprintln(os.Stderr, "       ", l)
